@@ -6,9 +6,12 @@ package main
 // (the probes of `sx arp`) as one JSON row.
 
 import (
+	"bytes"
 	"encoding/binary"
 	"fmt"
+	"net"
 	"os"
+	"strings"
 	"time"
 
 	afp "github.com/google/gopacket/afpacket"
@@ -23,7 +26,56 @@ type capRow struct {
 	Reason string  `json:"reason"` // why the capture stopped
 }
 
-func capture(out, iface string, max int, idle, total time.Duration) {
+// matcher decides whether a frame is a probe; key != "" asks for de-duplication on that key.
+type matcher func(data []byte) (ok bool, key string)
+
+func newMatcher(spec string) matcher {
+	switch {
+	case spec == "" || spec == "arp":
+		return func(data []byte) (bool, string) {
+			// Ethernet: dst(6) src(6) type(2); ARP: htype ptype hlen plen oper(2 at offset 20)
+			return len(data) >= 22 && binary.BigEndian.Uint16(data[12:14]) == 0x0806 && binary.BigEndian.Uint16(data[20:22]) == 1, ""
+		}
+	case strings.HasPrefix(spec, "dstmac:"):
+		mac, err := net.ParseMAC(spec[len("dstmac:"):])
+		if err != nil {
+			fmt.Fprintln(os.Stderr, "capture: bad mac")
+			os.Exit(2)
+		}
+		return func(data []byte) (bool, string) {
+			return len(data) >= 34 && bytes.Equal(data[0:6], mac) && binary.BigEndian.Uint16(data[12:14]) == 0x0800, ""
+		}
+	case strings.HasPrefix(spec, "syn:"):
+		ip := net.ParseIP(spec[len("syn:"):]).To4()
+		if ip == nil {
+			fmt.Fprintln(os.Stderr, "capture: bad ip")
+			os.Exit(2)
+		}
+		// first SYN (without ACK) per destination port to that address
+		return func(data []byte) (bool, string) {
+			if len(data) < 54 || binary.BigEndian.Uint16(data[12:14]) != 0x0800 || data[23] != 6 {
+				return false, ""
+			}
+			ihl := int(data[14]&0x0f) * 4
+			if len(data) < 14+ihl+14 || !bytes.Equal(data[30:34], ip) {
+				return false, ""
+			}
+			tcp := data[14+ihl:]
+			flags := tcp[13]
+			if flags&0x02 == 0 || flags&0x10 != 0 {
+				return false, ""
+			}
+			return true, fmt.Sprint(binary.BigEndian.Uint16(tcp[2:4]))
+		}
+	}
+	fmt.Fprintln(os.Stderr, "capture: unknown -match", spec)
+	os.Exit(2)
+	return nil
+}
+
+func capture(out, iface, match string, max int, idle, total time.Duration) {
+	isProbe := newMatcher(match)
+	seen := map[string]bool{}
 	h, err := afp.NewTPacket(afp.SocketRaw, afp.OptInterface(iface), afp.OptPollTimeout(20*time.Millisecond))
 	if err != nil {
 		fmt.Fprintln(os.Stderr, "capture:", err)
@@ -52,10 +104,16 @@ func capture(out, iface string, max int, idle, total time.Duration) {
 		if err != nil {
 			continue // poll timeout
 		}
-		// Ethernet: dst(6) src(6) type(2); ARP: htype ptype hlen plen oper(2 at offset 20)
-		if len(data) < 22 || binary.BigEndian.Uint16(data[12:14]) != 0x0806 || binary.BigEndian.Uint16(data[20:22]) != 1 {
+		ok, key := isProbe(data)
+		if !ok {
 			row.Other++
 			continue
+		}
+		if key != "" {
+			if seen[key] {
+				continue
+			}
+			seen[key] = true
 		}
 		if first.IsZero() {
 			first = ci.Timestamp
